@@ -137,17 +137,14 @@ Definition client_value (dl : list Z) : option Z :=
   match rev dl with [] => None | v :: _ => Some v end.
 
 (* ---- collection and the reported offset ----
-   ms := make([]Measurement, nsps); the successful measurements fill ms[0..j) in arrival order, the other
-   entries stay zero; the result is FaultTolerantMidpoint(ms).  `arrived` lists what the goroutines sent, in
-   arrival order. *)
-Definition collected (arrived : list (option Z)) : list Z :=
-  let succ := flat_map (fun o => match o with Some v => [v] | None => [] end) arrived in
-  succ ++ repeat 0 (length arrived - length succ).
+   ms := make([]Measurement, nsps); n = collectMeasurements(...): the successful measurements fill ms[0..n) in
+   arrival order; n == 0 gives errNoMeasurement, otherwise the result is FaultTolerantMidpoint(ms[:n]).
+   `arrived` lists what the goroutines sent, in arrival order. *)
+Definition measured (arrived : list (option Z)) : list Z :=
+  flat_map (fun o => match o with Some v => [v] | None => [] end) arrived.
 
-Definition round_offset (arrived : list (option Z)) : option Z := ftm (collected arrived).
-
-(* one value per participating client: the offset it measured, 0 when it failed *)
-Definition value_of (o : option Z) : Z := match o with Some v => v | None => 0 end.
+(* None = errNoMeasurement *)
+Definition round_offset (arrived : list (option Z)) : option Z := ftm (measured arrived).
 
 (* ---- a whole round over the states of all clients ---- *)
 Record client_obs := {
@@ -177,6 +174,7 @@ Fixpoint run_clients (fps : list Z) (cs : list cstate) (asg : list (option nat))
 
 Inductive round_res :=
 | ROk (obs : list client_obs) (off : Z) (rest : list Z)
+| RNoMeas (obs : list client_obs) (rest : list Z)                      (* errNoMeasurement *)
 | RNoPath (post : list cstate) (resets : list bool) (rest : list Z)
 | RFail.      (* random generator error, panic, hang: not driven through histories *)
 
@@ -189,7 +187,7 @@ Definition run_round (fps : list Z) (cs : list cstate) (d : Z) (tape : list Z)
       let obs := run_clients fps cs asg resets mss vss in
       match round_offset (map (fun o => client_value (co_vals o)) (participants obs)) with
       | Some off => ROk obs off rest
-      | None => RFail
+      | None => RNoMeas obs rest
       end
   | ANoPath resets rest =>
       RNoPath (map (fun sr : cstate * bool => if snd sr then reset_client (fst sr) else fst sr) (combine cs resets)) resets rest
